@@ -110,6 +110,17 @@ CHECKS = {
         note="Trusted: Coq kernel+VM, MathComp/SsrMultinomials. Partial: hessian is modelled and run against /repo "
              "(shape (D,D)+p.shape and values under all 16 settings) but has no theorem yet; designation by position or "
              "by indeterminate polynomial is resolved by the harness to the name before the model is called. Integer coefficients."),
+    "C02": dict(
+        technique="Coq proof: numeric call = SsrMultinomials meval of every element at every broadcast point; binding "
+                  "errors; substitution modelled with the C01 operations and run by vm_compute against /repo",
+        text="Theorems (Props/P_C02.v): with every indeterminate bound to a number or array, the call returns a plain array "
+             "of shape poly.shape + broadcast(argument shapes) whose element (i,j) is meval of element i at the j-th "
+             "broadcast point; non-broadcastable arguments give ValueError; unknown keyword names and a name supplied both "
+             "positionally and by keyword give TypeError, every other binding succeeds.",
+        note="Trusted: Coq kernel+VM, MathComp/SsrMultinomials. Partial: partial application / polynomial arguments "
+             "(substitution, comp_mpoly) and 'staged = at once' are modelled with the proved C01 operations and compared "
+             "with /repo on every run, and checked as relations on /repo, but not yet stated as theorems; independence "
+             "of the numeric carrier type (int / numpy scalar / float) is checked on /repo only (the model erases the carrier)."),
 }
 
 
